@@ -24,6 +24,10 @@ func vRunAbacoRingDevice(c *vCase) {
 		return
 	}
 	size := vPick(r, 1<<18, 1<<19, (1<<18)+3*psize, (1<<18)+1000)
+	backlog := c.Idx%32 == 11
+	if backlog {
+		size = 1400 * psize // a reader held up for a while finds more than a thousand packets waiting
+	}
 	if err := w.Create(size); err != nil {
 		c.Inconclusive("setup", "Create(%d): %v", size, err)
 		return
@@ -109,10 +113,17 @@ func vRunAbacoRingDevice(c *vCase) {
 	}
 	defer dev.stop()
 	nops := 30 + r.Intn(120)
+	if backlog {
+		nops = 12
+	}
 	for op := 0; op < nops; op++ {
 		switch k := r.Intn(10); {
 		case k < 5:
 			n := piece()
+			if backlog && op%4 == 0 {
+				n = (1030 + r.Intn(300)) * psize
+				c.Cov("ring_device_backlogs_of_over_1024_packets", 1)
+			}
 			before := wpos
 			write(n)
 			note("publish %d bytes (%d accepted)", n, wpos-before)
